@@ -250,3 +250,193 @@ def accumulate_sizes(t):
 
 
 RULES['accumulate_sizes'] = accumulate_sizes
+
+
+def _scan_left(t, i):
+    """start index of the postfix/unary operand ending just before position i (exclusive), skipping spaces"""
+    j = i
+    while j > 0 and t[j - 1] in ' \t\n':
+        j -= 1
+    end = j
+    while j > 0:
+        c = t[j - 1]
+        if c == ')' or c == ']':
+            op = '(' if c == ')' else '['
+            depth, k = 0, j - 1
+            while k >= 0:
+                if t[k] == c:
+                    depth += 1
+                elif t[k] == op:
+                    depth -= 1
+                    if depth == 0:
+                        break
+                k -= 1
+            if k < 0:
+                return None
+            j = k
+            continue
+        if c.isalnum() or c == '_':
+            while j > 0 and (t[j - 1].isalnum() or t[j - 1] == '_' or (t[j - 1] == ':' and (t[j - 2] == ':' or t[j] == ':'))):
+                j -= 1
+            if t[j].isdigit() and j >= 3 and t[j - 1] in '+-' and t[j - 2] in 'eE' and (t[j - 3].isdigit() or t[j - 3] == '.'):
+                j -= 2      # exponent of a floating literal: keep scanning its mantissa
+                while j > 0 and (t[j - 1].isalnum() or t[j - 1] == '.'):
+                    j -= 1
+                break
+            # member access chain continues to the left?
+            if j >= 1 and t[j - 1] == '.':
+                j -= 1
+                continue
+            if j >= 2 and t[j - 2:j] == '->':
+                j -= 2
+                continue
+            break
+        break
+    return j if j < end else None
+
+
+def _scan_right(t, i):
+    """end index (exclusive) of the unary/postfix operand starting at or after position i, skipping spaces"""
+    j, n = i, len(t)
+    while j < n and t[j] in ' \t\n':
+        j += 1
+    start = j
+    if j < n and t[j] in '-+':
+        j += 1
+        while j < n and t[j] in ' \t\n':
+            j += 1
+    if j < n and t[j] == '(':
+        k = X_match(t, j)
+        if k is None:
+            return None
+        j = k + 1
+    elif j < n and (t[j].isalnum() or t[j] == '_' or t[j] == '.'):
+        j0 = j
+        while j < n and (t[j].isalnum() or t[j] in '_.' or t[j:j + 2] == '::' or (t[j] == ':' and t[j - 1] == ':')):
+            j += 1
+        if (t[j0].isdigit() or t[j0] == '.') and t[j - 1] in 'eE' and j + 1 < n and t[j] in '+-' and t[j + 1].isdigit():
+            j += 1      # exponent sign of a floating literal
+            while j < n and t[j].isalnum():
+                j += 1
+    else:
+        return None
+    while j < n:
+        if t[j] == '(' or t[j] == '[':
+            k = X_match(t, j)
+            if k is None:
+                return None
+            j = k + 1
+        elif t[j] == '.' and j + 1 < n and (t[j + 1].isalpha() or t[j + 1] == '_'):
+            j += 1
+            while j < n and (t[j].isalnum() or t[j] == '_'):
+                j += 1
+        elif t[j:j + 2] == '->':
+            j += 2
+            while j < n and (t[j].isalnum() or t[j] == '_'):
+                j += 1
+        else:
+            break
+    return j if j > start else None
+
+
+def X_match(t, i):
+    op = t[i]
+    cl = ')' if op == '(' else ']'
+    depth = 0
+    for k in range(i, len(t)):
+        if t[k] == op:
+            depth += 1
+        elif t[k] == cl:
+            depth -= 1
+            if depth == 0:
+                return k
+    return None
+
+
+TYPE_WORDS = {'double', 'int', 'char', 'void', 'size_t', 'int64_t', 'uint64_t', 'bool', 'Active', 'OutPt', 'OutRec', 'Vertex',
+              'LocalMinima', 'PointD', 'Point64', 'Path64', 'PathD', 'ClipperOffset', 'Group', 'const', 'HorzSegment', 'PolyPath'}
+
+
+def fmul_all(t):
+    """R21b: every binary `A * B` and `A / B` of the function body becomes vf_fmul(A, B) / vf_fdiv(A, B) (operands = the
+    adjacent unary/postfix expressions; left-associative chains are folded left to right).  Used where two variants of the
+    same floating-point code are compared: the products become applications of one uninterpreted function."""
+    n = 0
+    body_start = t.index('{')
+    head, body = t[:body_start], t[body_start:]
+    pos = 0
+    while True:
+        m = re.compile(r'(?<![*/=<>!&|+\-])([*/])(?![*/=])').search(body, pos)
+        if not m:
+            break
+        i = m.start(1)
+        l = _scan_left(body, i)
+        r = _scan_right(body, i + 1)
+        if l is None or r is None:
+            pos = i + 1
+            continue
+        left = body[l:i].strip()
+        if left in TYPE_WORDS or re.match(r'^(?:const\s+)?\w+\s*$', left) and re.match(r'\s*\w+\s*[;,=)]', body[i + 1:]) and left[:1].isupper():
+            pos = i + 1       # pointer declarator
+            continue
+        right = body[i + 1:r].strip()
+        fn = 'vf_fmul' if m.group(1) == '*' else 'vf_fdiv'
+        rep = '%s(%s, %s)' % (fn, left, right)
+        body = body[:l] + rep + body[r:]
+        n += 1
+        pos = l          # rescan: the call may be the left operand of the next operator
+        # skip past the function name so that the same operator is not matched again (it is gone), continue after '('
+    return head + body, n
+
+
+RULES['fmul_all'] = fmul_all
+
+
+def fops_all(t):
+    """R21c: fmul_all, then every binary `A + B` / `A - B` becomes vf_add(A, B) / vf_sub(A, B) (type-generic macros: an
+    uninterpreted function when the result type is double, the plain operator otherwise)."""
+    t, n = fmul_all(t)
+    body_start = t.index('{')
+    head, body = t[:body_start], t[body_start:]
+    pos = 0
+    rx = re.compile(r'(?<![+\-=<>!&|*/(,\[{?:;])\s*([+\-])(?![+\-=>])')
+    while True:
+        m = rx.search(body, pos)
+        if not m:
+            break
+        i = m.start(1)
+        # binary only if the previous non-space character ends an operand
+        j = i
+        while j > 0 and body[j - 1] in ' \t\n':
+            j -= 1
+        prev = body[j - 1] if j > 0 else ''
+        if not (prev.isalnum() or prev in '_)]') or re.search(r'\d[eE]$', body[max(0, j - 3):j]) or re.search(r'\breturn$|\bcase$', body[max(0, j - 6):j]):
+            pos = i + 1
+            continue
+        l = _scan_left(body, i)
+        # the left operand of + and - may be preceded by a unary sign belonging to it
+        r = i + 1
+        # right operand: a multiplicative-level expression = unary/postfix expression (products are calls already)
+        r = _scan_right(body, i + 1)
+        if l is None or r is None:
+            pos = i + 1
+            continue
+        k = l
+        while k > 0 and body[k - 1] in ' \t\n':
+            k -= 1
+        if k > 0 and body[k - 1] in '+-':
+            k2 = k - 1
+            while k2 > 0 and body[k2 - 1] in ' \t\n':
+                k2 -= 1
+            p2 = body[k2 - 1] if k2 > 0 else ''
+            if not (p2.isalnum() or p2 in '_)]'):
+                l = k - 1          # unary sign is part of the left operand
+        left, right = body[l:i].strip(), body[i + 1:r].strip()
+        fn = 'vf_add' if m.group(1) == '+' else 'vf_sub'
+        body = body[:l] + '%s(%s, %s)' % (fn, left, right) + body[r:]
+        n += 1
+        pos = l
+    return head + body, n
+
+
+RULES['fops_all'] = fops_all
